@@ -12,7 +12,8 @@ Clauses of the property:
   (2) operators are split by longest match
         C12_operator_longest, C12_operator_exact, C12_operator_never_fails
   (3) printed tokens are read back as themselves
-        C12_unescape_escape, C12_escape_scans (strings/chars, fix F16),
+        C12_unescape_escape, C12_escape_scans (strings/chars, fix F16), C12_string_value_in_range,
+        C12_char_value_in_range (the scanners' ranges),
         C12_reread_identifier, C12_reread_operator, C12_reread_number, C12_reread_string,
         C12_reread_rawstring, C12_reread_char, C12_reread_line_comment, C12_reread_block_comment,
         C12_roundtrip, C12_roundtrip_tokens
@@ -120,6 +121,13 @@ theorem C12_string_value_in_range {r : Str} (hn : NoNul r) {v : Str} {e : Nat} {
   getString_range hn h
 
 example : getString 0 [DQ, 'a', '\\', DQ, DQ, 'x'] = .ok (['a', DQ], true, 0, ['x']) := by decide
+
+/-- (3) the same for character literals -/
+theorem C12_char_value_in_range {r : Str} (hn : NoNul r) {v udf : Str} {e : Nat} {r' : Str}
+    (h : getCharToken 0 ('\'' :: r) = .ok (some (.chr 0 v udf), e, r')) : ValUnits '\'' v :=
+  getCharToken_range hn h
+
+example : getCharToken 0 ['\'', '\\', '\'', '\'', '_', 'x'] = .ok (some (.chr 0 ['\''] ['_', 'x']), 0, []) := by decide
 
 /-! ### per-kind re-read theorems: a printed token followed by a separator character `c` (any of
     `charcodes::whitespace`) is read back by `getToken` as exactly that token, with no error, leaving the
